@@ -163,7 +163,21 @@ pub fn malformed_case(rng: &mut Rng) -> Case {
             opts.config_path = Some("../bad.toml".into());
             family.push_str("@config-path");
         }
-        6..=8 => {
+        6 => {
+            // a malformed user-level configuration, reached with --search-parent-directories
+            opts.search_parents = true;
+            if rng.chance(50) {
+                w.xdg = Some("xdg".into());
+                let d = if rng.chance(50) { "xdg" } else { "xdg/stylua" };
+                w.files.insert(format!("{d}/stylua.toml"), text.into_bytes());
+            } else {
+                w.home = Some("home".into());
+                let d = if rng.chance(50) { "home/.config" } else { "home/.config/stylua" };
+                w.files.insert(format!("{d}/.stylua.toml"), text.into_bytes());
+            }
+            family.push_str("@user-level");
+        }
+        7..=8 => {
             let d = rng.pick(&["sub", "sub/deep", "lib"]);
             w.files.insert(format!("{CWD}/{d}/stylua.toml"), text.into_bytes());
             // a good config at the top so that the other files have something to be formatted by
